@@ -20,8 +20,8 @@ func WeakOf(obj any) func() bool {
 	case *D4:
 		w := weak.Make(p)
 		return func() bool { return w.Value() != nil }
-	case *D5:
-		w := weak.Make(p)
+	case D5:
+		w := weak.Make(p.B) // a value type: what can be retained is the state it points to
 		return func() bool { return w.Value() != nil }
 	case *N0:
 		w := weak.Make(p)
@@ -35,8 +35,8 @@ func WeakOf(obj any) func() bool {
 	case *N3:
 		w := weak.Make(p)
 		return func() bool { return w.Value() != nil }
-	case *N4:
-		w := weak.Make(p)
+	case N4:
+		w := weak.Make(p.B)
 		return func() bool { return w.Value() != nil }
 	case *N5:
 		w := weak.Make(p)
